@@ -754,15 +754,19 @@ impl Cursor<'_> {
                 // n.b. example of `empty_exponent` : 3.4e; This is a syntax error
                 let mut empty_exponent = false;
                 // preferred to is_digit(10), in rust lexer
-                if self.first().is_ascii_digit() {
+                let has_fraction = self.first().is_ascii_digit();
+                if has_fraction {
                     self.eat_decimal_digits();
-                    match self.first() {
-                        'e' | 'E' => {
-                            self.bump();
-                            empty_exponent = !self.eat_float_exponent();
-                        }
-                        _ => (),
-                    }
+                }
+                // The digits after the point are optional, also before an exponent: `1.e3`, `1.e-3`.
+                // Without a fraction, an `e` starts an exponent only if exponent digits follow.
+                let exponent_follows = matches!(self.first(), 'e' | 'E')
+                    && (has_fraction
+                        || self.second().is_ascii_digit()
+                        || (matches!(self.second(), '+' | '-') && self.third().is_ascii_digit()));
+                if exponent_follows {
+                    self.bump();
+                    empty_exponent = !self.eat_float_exponent();
                 }
                 Float {
                     base,
